@@ -41,6 +41,7 @@ PROBES = [
     "probe.runtime_error_line", "probe.runtime_error_after_effects", "probe.continued_line",
     "probe.closure_call", "probe.recursion", "probe.echo_seen", "probe.use_after_reject", "probe.two_rejects_in_a_row",
     "probe.blank_entry", "probe.continued_line_closed_by_blank", "probe.comment_only_line", "probe.runtime_error_inside_call",
+    "probe.function_literal_in_container",
 ]
 THOROUGH_ONLY_PROBES = ["probe.long_session"]
 COMPONENTS = {
@@ -65,12 +66,18 @@ DIAG_RE = re.compile(r"^(\[line (\d+|N)\] .+|\d+ parse errors)$")
 def _iexpr(rng, env, depth=2, extra=None):
     ints = [n for n, k in env.items() if k == "int"] + (extra or [])
     funs = [n for n, k in env.items() if k == "fn"]
+    farrs = [n for n, k in env.items() if k == "fnarr"]
+    fmaps = [n for n, k in env.items() if k == "fnmap"]
     if depth <= 0 or rng.chance(40):
-        k = rng.weighted([(40, "c"), (45 if ints else 0, "v"), (15 if funs else 0, "call")])
+        k = rng.weighted([(40, "c"), (45 if ints else 0, "v"), (15 if funs else 0, "call"), (10 if farrs else 0, "acall"), (10 if fmaps else 0, "mcall")])
         if k == "c":
             return str(rng.choice([0, 1, 2, 3, 5, 7, 10, 42, 100]))
         if k == "v":
             return rng.choice(ints)
+        if k == "acall":
+            return "%s[%d](%s)" % (rng.choice(farrs), rng.below(2), _iexpr(rng, env, 0, extra))
+        if k == "mcall":
+            return '%s["k"](%s)' % (rng.choice(fmaps), _iexpr(rng, env, 0, extra))
         return "%s(%s)" % (rng.choice(funs), _iexpr(rng, env, 0, extra))
     op = rng.choice(["+", "-", "*", "%"])
     if op == "%":
@@ -89,10 +96,28 @@ def _ok_stmt(rng, env, stats):
     ints = [n for n, k in env.items() if k == "int"]
     strs = [n for n, k in env.items() if k == "str"]
     arrs = [n for n, k in env.items() if k == "arr"]
+    funs0 = [n for n, kk in env.items() if kk == "fn"]
     k = rng.weighted([
         (22, "let"), (10 if ints else 0, "assign"), (12, "fn"), (20, "print"), (6, "str"), (6, "arr"),
         (6, "if"), (5, "letif"), (4, "rec"), (5 if arrs else 0, "arrop"), (4, "loop"), (3, "map"),
+        (4, "fnarr"), (3, "fnmap"), (3, "fnif"), (4 if funs0 else 0, "fnassign"),
     ])
+    # function literals that are not the direct value of a `let`: stored in arrays / maps, chosen by an
+    # if-expression, or assigned to an existing name (their bodies refer to constants of this line)
+    if k in ("fnarr", "fnmap", "fnif", "fnassign"):
+        c1, c2 = rng.choice([3, 7, 11, 42]), rng.choice([2, 5, 9, 100])
+        if k == "fnarr":
+            v = rng.choice(VARS)
+            return "let %s = [fn(n) { n + %d }, fn(n) { (n * %d) %% 1000 }];" % (v, c1, c2), [(v, "fnarr")]
+        if k == "fnmap":
+            v = rng.choice(VARS)
+            return 'let %s = map {"k": fn(n) { (n + %d) * %d }};' % (v, c1, c2), [(v, "fnmap")]
+        if k == "fnif":
+            f = rng.choice(FUNS)
+            envx = dict((n, kk) for n, kk in env.items() if n != f)
+            return "let %s = if %s { fn(n) { n + %d } } else { fn(n) { n - %d } };" % (f, _bexpr(rng, envx), c1, c2), [(f, "fn")]
+        f = rng.choice(funs0)
+        return "%s = fn(n) { (n %% 13) + %d };" % (f, c1), []
     if k in ("let", "arr", "letif", "map"):
         # `let v = ... v ...` reads the *new* (still null) binding in p2sh: never self-reference
         v = rng.choice(VARS)
@@ -118,7 +143,7 @@ def _ok_stmt(rng, env, stats):
     if k == "print":
         how = rng.choice(["puts", "println", "eprintln"])
         if how == "puts":
-            cands = [_iexpr(rng, env)] + strs + arrs
+            cands = [_iexpr(rng, env)] + strs + arrs   # (arrays / maps of functions are never printed: only called)
             return "puts(%s);" % rng.choice(cands), []
         n = rng.range(1, 2)
         return '%s("%s"%s);' % (how, " ".join(["{}"] * n), "".join(", " + _iexpr(rng, env) for _ in range(n))), []
@@ -145,7 +170,11 @@ def _probe_line(env):
     parts = []
     for n in sorted(env):
         k = env[n]
-        if k == "fn":
+        if k == "fnarr":
+            parts.append("puts(%s[0](3)); puts(%s[1](3));" % (n, n))
+        elif k == "fnmap":
+            parts.append('puts(%s["k"](3));' % n)
+        elif k == "fn":
             parts.append("puts(%s(3));" % n)
         else:
             parts.append("puts(%s);" % n)
@@ -389,6 +418,8 @@ def check(model, results):
             inc("probe.closure_call")
         if "fn(n) { if n < 2" in ln["text"]:
             inc("probe.recursion")
+        if kind in ("ok", "probe") and ("](" in ln["text"]):
+            inc("probe.function_literal_in_container")
         inc("ops." + kind)
         if kind == "blank":
             inc("probe.blank_entry")
